@@ -8,6 +8,7 @@ def main():
     pid, hname, args = sys.argv[1], sys.argv[2], json.loads(sys.argv[3])
     from vf import ch
     from vf.driver import get_harness
+    ch.NATIVE = True
     h = get_harness(pid, hname)
     args = ch.dec(args)
     out = {"harness": hname, "args": repr(args)}
@@ -21,6 +22,10 @@ def main():
         out["ok"] = None
         out["error"] = "harness raised natively: %r" % (e,)
         out["traceback"] = traceback.format_exc()[-3000:]
+    try:
+        out["last"] = json.loads(json.dumps(ch.LAST, default=repr))
+    except Exception:
+        pass
     if h.describe is not None and out["ok"] is not None:
         try:
             out["transcript"] = h.describe(*args)
